@@ -94,11 +94,44 @@ def check_case(case, cell):
         a_pt = pos + 0.5 * depth * u
         b_pt = pos - 0.5 * depth * u
         model = bool(Aref.sdist(a_pt)[0] <= band and Bref.sdist(b_pt)[0] <= band)
+        if not model:
+            # the general form of the same model: pos = (a + b) / 2 for SOME
+            # a in A, b in B (libccd weights the support points of the portal
+            # vertices; a - b is the portal point on the origin ray, not
+            # necessarily depth*u), i.e. A meets B reflected through pos
+            refl = _reflect(case["B"], pos)
+            if refl is not None:
+                model = bool(refdist(Aref, ref(refl), scale=L)["lower"] <= band)
         fails.append(fail("contact-outside/" + tag,
                           "contact position is %.3g outside A / %.3g outside B (band %.3g)" % (sa, sb, band),
                           midpoint_model=model, depth=depth, outside=max(sa, sb), pd_hi=pd_hi))
     nt = pd_lo >= 10 * band or any(l in ("mode:centre", "mode:identical") for l in labels)
     return fails, {"labels": labels, "nontrivial": bool(nt)}
+
+
+def _reflect(spec, c):
+    """spec of the shape { 2c - x : x in shape } (point reflection), or None"""
+    c = np.asarray(c, dtype=float)
+    s = dict(spec)
+    k = spec["kind"]
+    if k == "hull":
+        s["vertices"] = (2.0 * c - np.asarray(spec["vertices"], dtype=float)).tolist()
+        return s
+    if k == "mesh":
+        # world vertices R v + p  ->  2c - R v - p = R (-v) + (2c - p)
+        s["vertices"] = (-np.asarray(spec["vertices"], dtype=float)).tolist()
+        s["p"] = (2.0 * c - np.asarray(spec["p"], dtype=float)).tolist()
+        return s
+    if k == "cone":
+        # -I = (rotation by pi about the local x axis) o (mirror x -> -x); a
+        # cone is symmetric under the mirror
+        s["R"] = (np.asarray(spec["R"], dtype=float) * np.array([1.0, -1.0, -1.0])).tolist()
+        s["p"] = (2.0 * c - np.asarray(spec["p"], dtype=float)).tolist()
+        return s
+    if k in ("sphere", "ellipsoid", "capsule", "cylinder", "box", "disk", "ellipse"):
+        s["p"] = (2.0 * c - np.asarray(spec["p"], dtype=float)).tolist()    # centrally symmetric
+        return s
+    return None
 
 
 def match_known(f, case, known):
